@@ -14,7 +14,7 @@ ALPHA = [97, 66, 32, 44, 233, 0]
 ALL_OPS = ["lit", "assignlit", "attach", "ctorbuf", "ctorfill", "ctorcap", "copy", "assign", "append", "prepend",
            "appendb", "prependb", "appendc", "clear", "resize", "reserve", "detach", "replacec", "replace", "lower",
            "upper", "trim", "printf", "printfw", "join", "split", "lpush", "cstr", "cstrm", "compare", "cmpx", "rel", "eq",
-           "starts", "ends", "findc", "findlastc", "findcs", "find", "finds", "findlast", "substr", "token", "tokens"]
+           "starts", "ends", "findc", "findlastc", "findcs", "find", "finds", "findlast", "findof", "substr", "token", "tokens"]
 
 
 def build():
@@ -44,7 +44,7 @@ def rand_exec(rng, nops):
          ("resize", 4), ("reserve", 3), ("detach", 1), ("replacec", 3), ("replace", 8), ("lower", 2), ("upper", 2),
          ("trim", 4), ("printf", 3), ("printfw", 1), ("join", 3), ("split", 4), ("lpush", 2), ("cstr", 4), ("cstrm", 2),
          ("compare", 3), ("cmpx", 4), ("rel", 2), ("eq", 3), ("starts", 3), ("ends", 3), ("findc", 2), ("findlastc", 2),
-         ("findcs", 2), ("find", 3), ("finds", 2), ("findlast", 3), ("substr", 4), ("token", 3), ("tokens", 3)]
+         ("findcs", 2), ("find", 3), ("finds", 2), ("findlast", 3), ("findof", 3), ("substr", 4), ("token", 3), ("tokens", 3)]
     names = [w[0] for w in W]
     weights = [w[1] for w in W]
     for _ in range(nops):
@@ -69,13 +69,13 @@ def rand_exec(rng, nops):
             m = i if rng.random() < 0.2 else rng.randint(1, NV)
         elif op in ("ctorbuf", "appendb", "prependb"):
             d = rbytes(rng)
-        elif op in ("trim", "split", "tokens", "find", "finds", "findlast"):
+        elif op in ("trim", "split", "tokens", "find", "finds", "findlast", "findof"):
             d = rbytes(rng, 2, nul=0.0)
             if op == "findlast" and not d and not GEN_FINDLAST_EMPTY:
                 d = [c]
             if op == "split":
                 n = rng.randint(0, 1)
-            if op == "finds":
+            if op in ("finds", "findof"):
                 n = rng.randint(0, 5)
             if op == "tokens":
                 n2 = rng.randint(0, 4)
